@@ -32,6 +32,9 @@ pub struct GitScenario {
     /// RLIMIT_NOFILE of every monorail invocation (None = inherited)
     #[serde(default)]
     pub nofile: Option<u64>,
+    /// the repository uses SHA-256 object names
+    #[serde(default)]
+    pub sha256: bool,
 }
 
 impl GitScenario {
@@ -57,7 +60,7 @@ impl GitScenario {
         if self.ignore_build {
             gitignore.push("build/".to_string());
         }
-        WorldSpec { targets, cmd_files, files: self.initial.clone(), sequences: vec![], max_retained_runs: 3, gitignore, git: true, lock_host: None, default_ports: 0, omit_max_retained: false }
+        WorldSpec { targets, cmd_files, files: self.initial.clone(), sequences: vec![], max_retained_runs: 3, gitignore, git: true, lock_host: None, default_ports: 0, omit_max_retained: false, sha256_repo: self.sha256 }
     }
     pub fn initial_tree(&self) -> Tree {
         let mut t = Tree::new();
@@ -110,7 +113,9 @@ fn gen_base(rng: &mut Rng, with_commands: bool, shared: bool) -> GitScenario {
         1 => Some(128),
         _ => None,
     };
-    GitScenario { dirs, shared, initial, ignore_log, ignore_build, ops: vec![], rand_seed, with_commands, nofile }
+    // one repository in six uses SHA-256 object names (64 hex digits)
+    let sha256 = (rand_seed / 8) % 6 == 0;
+    GitScenario { dirs, shared, initial, ignore_log, ignore_build, ops: vec![], rand_seed, with_commands, nofile, sha256 }
 }
 
 struct Exec {
@@ -829,8 +834,11 @@ fn gen_c19(seed: u64, idx: usize, _tier: Tier) -> GitScenario {
                 }
                 8 | 9 => GitOp::CpShow,
                 10 => {
-                    if g.rng.chance(1, 2) {
+                    if g.rng.chance(1, 3) {
                         GitOp::CpUpdateUnborn { pending: g.rng.chance(1, 3) }
+                    } else if g.rng.chance(1, 2) {
+                        let nc = g.model.commits.len();
+                        GitOp::CpUpdateUnreadable { id: if g.rng.chance(1, 2) { Some(g.rng.below(nc)) } else { None } }
                     } else {
                         GitOp::CpUpdate { id: None, raw_id: Some("\u{0}fail".into()), pending: g.rng.chance(1, 2) }
                     }
@@ -911,6 +919,51 @@ fn exec_c19_inner(sc: &GitScenario) -> Outcome {
                     out.advisories.push("update with an unusable git succeeded".into());
                     if let Some(d) = o.json() {
                         e.cp_doc = Some(d["checkpoint"].clone());
+                    }
+                }
+            }
+            GitOp::CpUpdateUnreadable { id } => {
+                // git does not list sockets, but it lists a symbolic link; opening the link opens the socket (ENXIO)
+                let sock = e.w.root.join(".ctl").join(format!("unreadable-{}.sock", i));
+                let link = e.w.root.join(&sc.dirs[0]).join(format!("unreadable-{}.lnk", i));
+                let _ = std::fs::remove_file(&sock);
+                let _ = std::fs::remove_file(&link);
+                let listener = match std::os::unix::net::UnixListener::bind(&sock).and_then(|l| std::os::unix::fs::symlink(&sock, &link).map(|_| l)) {
+                    Ok(l) => l,
+                    Err(_) => {
+                        out.skipped = Some("history_op_failed(harness)".into());
+                        return out;
+                    }
+                };
+                let mut a = vec!["checkpoint".to_string(), "update".into(), "--pending".into()];
+                if let Some(n) = id {
+                    a.push("--id".into());
+                    a.push(e.shas[(*n).min(e.shas.len() - 1)].clone());
+                }
+                let o = e.w.cli_v(&a);
+                drop(listener);
+                let _ = std::fs::remove_file(&sock);
+                let _ = std::fs::remove_file(&link);
+                out.sub_evals += 1;
+                out.fault("checkpoint_update_with_an_unreadable_pending_path", 1);
+                out.trace.push(format!("{} update --pending with an unreadable path -> {:?}", i, o.code));
+                if o.code == Some(0) {
+                    // a tool that records such a path somehow and succeeds is within its rights: the store is then
+                    // whatever that update returned
+                    if let Some(d) = o.json() {
+                        e.cp_doc = Some(d["checkpoint"].clone());
+                        let idv = d["checkpoint"]["id"].as_str().unwrap_or("").to_string();
+                        e.cp = Some((idv, BTreeMap::new()));
+                    }
+                } else {
+                    let sh = e.w.cli(&["checkpoint", "show"]);
+                    match (&e.cp_doc, sh.code, sh.json()) {
+                        (Some(want), Some(0), Some(d)) if d["checkpoint"] == *want => {}
+                        (None, c, _) if c != Some(0) => {}
+                        (want, c, d) => {
+                            out.violate("show_last_update", "changed_by_failed_update", format!("op {}: a failed update (unreadable pending path) changed the store: show exit {:?} {:?}, last successful update returned {:?}", i, c, d.map(|x| x["checkpoint"].clone()), want));
+                            break;
+                        }
                     }
                 }
             }
